@@ -567,15 +567,29 @@ class AtLeastKInARow(_KInARow):
                                     backend_request: BackendRequest) -> None:
 
         # Request sublists for k+1 to allow us to determine the transition
+        var_lists = block.build_variable_lists(level, self.within_block)
         sublistss = self._build_variable_sublistss(block, level, self.k + 1)
         implications = []
-        for sublists in sublistss:
+        for var_list, sublists in zip(var_lists, sublistss):
+            if not sublists:
+                # The window has at most k trials: a run of k is either the
+                # whole window or impossible.
+                if len(var_list) == self.k:
+                    implications += [Iff(var_list[0], v) for v in var_list[1:]]
+                else:
+                    implications += [Not(v) for v in var_list]
+                continue
             # Starting corner case
             implications.append(If(sublists[0][0], And(sublists[0][1:-1])))
             for sublist in sublists:
                 implications.append(If(And([Not(sublist[0]), sublist[1]]), And(sublist[2:])))
             # Ending corner case
             implications.append(If(Not(sublists[-1][1]), Not(Or(sublists[-1][2:]))))
+            if len(sublists) > 1:
+                # A run cannot start in the last k-1 trials either. (With a single
+                # sublist this already follows from the implications above.)
+                tail = sublists[-1][2:]
+                implications += [If(Not(a), Not(b)) for a, b in zip(tail, tail[1:])]
 
         (cnf, new_fresh) = block.cnf_fn(And(implications), backend_request.fresh)
 
@@ -638,10 +652,18 @@ class ExactlyKInARow(_KInARow):
                                  level: Tuple[Factor, Union[SimpleLevel, DerivedLevel]],
                                  backend_request: BackendRequest
                                  ) -> None:
+        var_lists = block.build_variable_lists(level, self.within_block)
         sublistss = self._build_variable_sublistss(block, level, self.k)
         implications = []
 
-        for sublists in sublistss:
+        for var_list, sublists in zip(var_lists, sublistss):
+            if not sublists:
+                # The window has fewer than k trials, so the level cannot occur in it.
+                implications += [Not(v) for v in var_list]
+                (cnf, new_fresh) = block.cnf_fn(And(implications), backend_request.fresh)
+                backend_request.cnfs.append(cnf)
+                backend_request.fresh = new_fresh
+                continue
             # Handle the regular cases (1 => 2 ^ ... ^ n ^ ~n+1)
             trim = len(sublists) if self.k > 1 else len(sublists) - 1
             for idx, l in enumerate(sublists[:trim]):
